@@ -232,7 +232,7 @@ def derivation_hooks(m):
     h["<bitcoin::bip32::DerivationPath as std::convert::AsRef<[bitcoin::bip32::ChildNumber]>>::as_ref"] = lambda m_, a, c: deref(a[0])
     h["bitcoin::bip32::Xpub::derive_pub"] = lambda m_, a, c: ok(Adt("bitcoin::bip32::Xpub", "Xpub", {
         "public_key": ("derived", deref(a[0]), tuple((x.variant, x.fields["index"]) for x in deref(a[2]).items))}))
-    h["bitcoin::PublicKey::new"] = lambda m_, a, c: ("compressed", deref(a[0]))
+    h["bitcoin::PublicKey::new"] = lambda m_, a, c: Adt("bitcoin::PublicKey", "PublicKey", {"compressed": True, "inner": deref(a[0])})
     h["bitcoin::bip32::Xpub::fingerprint"] = lambda m_, a, c: ("fingerprint-of", deref(a[0]))
     h["miniscript::ToPublicKey::to_public_key"] = lambda m_, a, c: ("even-y", deref(a[0]))
 
@@ -327,8 +327,8 @@ def check_key_derivation(chk, F):
                     bad.append("at_derivation_index(%d) gives %r, expected %r" % (i, got, want))
                 if r2.variant == "Ok" and sp["kind"] != "single":
                     pk = m.call_path(dpk, [r2.fields["0"], Term("secp")])
-                    wantpk = ("compressed", ("derived", ("xkey", base_view[2]), tuple(want[1][3][0])))
-                    if repr(pk) != repr(wantpk):
+                    wantpk = ("derived", ("xkey", base_view[2]), tuple(want[1][3][0]))
+                    if not (isinstance(pk, Adt) and pk.fields.get("compressed") is True and repr(pk.fields["inner"]) == repr(wantpk)):
                         bad.append("derive_public_key after at_derivation_index(%d) gives %r, expected %r" % (i, pk, wantpk))
             # into_single_keys
             r3 = m.call_path(names["into_single_keys"], [dcopy(K)])
@@ -343,6 +343,12 @@ def check_key_derivation(chk, F):
             want = [opath + p for p in sp["paths"]]
             if got != want:
                 bad.append("full_derivation_paths gives %r, expected %r" % (got, want))
+            if sp["kind"] != "single" or sp["origin"]:
+                r6 = m.call_path(names["master_fingerprint"], [K])
+                got = "".join("%02x" % b for b in deref(r6).items) if hasattr(deref(r6), "items") else repr(deref(r6))
+                want = sp["origin"][0] if sp["origin"] else repr(("fingerprint-of", ("xkey", base_view[2])))
+                if got != want:
+                    bad.append("master_fingerprint gives %s, expected %s" % (got, want))
             r5 = m.call_path(names["full_derivation_path"], [K])
             got = None if r5.variant == "None" else steps(r5.fields["0"])
             want = None if multi else opath + sp["paths"][0]
